@@ -641,7 +641,7 @@ func init() {
 			return 60
 		},
 		CaseTimeout: func(string) time.Duration { return 5 * time.Minute },
-		Rule: "one case = one whole-server run of a seeded tagged elementary stream through one ingest: (a) a reference RTSP publisher (ANNOUNCE with sprop/config; interleaved or UDP; single-NAL, STAP-A/AP, FU-A/FU; AAC with 1–4 AUs per packet and fragmented AUs; clock rates 8000…96000 incl. 44100/11025/22050; first sequence number near 65535; arrival perturbation none / swaps inside the window / duplicates / both, and ≥2000 audio frames in drift runs), (b) GB28181 PS over RTP after start_rtp_pub (UDP and TCP framing; PES split at 65535; PSM on every key frame or once; with/without system header), (c) the customize-pub API in-process (AVCC and Annex-B, raw and ADTS AAC, FeedRtmpMsg). RTMP and HTTP-FLV subscribers attached before the publisher. " +
+		Rule: "one case = one whole-server run of a seeded tagged elementary stream through one ingest: (a) a reference RTSP publisher (ANNOUNCE with sprop/config; interleaved or UDP; single-NAL, STAP-A/AP, FU-A/FU; AAC with 1–4 AUs per packet and fragmented AUs; clock rates 8000…96000 incl. 44100/11025/22050; first sequence number near 65535; arrival perturbation none / swaps inside the window / duplicates / both, and ≥2000 audio frames in drift runs), (b) GB28181 PS over RTP after start_rtp_pub (UDP and TCP framing; PES split at 65535; PSM on every key frame or once; with/without system header; the same arrival perturbations - neighbouring packets swapped, packets duplicated - over UDP and over the TCP framing), (c) the customize-pub API in-process (AVCC and Annex-B, raw and ADTS AAC, FeedRtmpMsg). RTMP and HTTP-FLV subscribers attached before the publisher. " +
 			"oracle: sequence headers carry exactly the publisher's SPS/PPS/VPS/ASC; flattened NAL-unit / audio-frame sequences equal the source from the first forwarded unit (AUD and in-band parameter sets removed), tail ≤128 frames may be pending at teardown; key flag ⇔ IDR/IRAP; received ms − source ticks·1000/clock is one constant per track within 1 ms for every unit. cell = ingest × consumer × codec pair.",
 		Assumptions: []string{"reference RTSP client, RTP packetisers, PS muxer (harness/ref)", "perturbations never involve the first 4 packets of a track (the jitter window exists once the receiver is locked)", "UDP runs with kernel UDP error counter movement are inconclusive"},
 		MinCells: 8,
@@ -897,6 +897,46 @@ func c07Run(c *fw.Ctx, i int) {
 		if psOff != 0 {
 			jd.ingest += "-pts-across-2^32"
 		}
+		// arrival perturbation that RTP permits, as for RTSP ingest: neighbouring packets swapped and / or
+		// packets duplicated (never among the first 8), over UDP and over the TCP framing alike
+		perturb := (i / 2) % 4
+		if perturb != 0 {
+			jd.ingest += fmt.Sprintf("-perturb%d", perturb)
+		}
+		var held []byte
+		nPk := 0
+		raw := func(pkt []byte) error {
+			var e error
+			if tcp {
+				_, e = conn.Write(append([]byte{byte(len(pkt) >> 8), byte(len(pkt))}, pkt...))
+			} else {
+				_, e = conn.Write(pkt)
+			}
+			return e
+		}
+		emit := func(pkt []byte) error {
+			nPk++
+			if held != nil {
+				e1 := raw(pkt)
+				e2 := raw(held)
+				held = nil
+				c.Count("ps_packets_swapped", 1)
+				if e1 != nil {
+					return e1
+				}
+				return e2
+			}
+			if nPk > 8 && perturb&1 != 0 && r.Intn(6) == 0 {
+				held = pkt
+				return nil
+			}
+			e := raw(pkt)
+			if e == nil && nPk > 8 && perturb&2 != 0 && r.Intn(8) == 0 {
+				c.Count("ps_packets_duplicated", 1)
+				e = raw(pkt)
+			}
+			return e
+		}
 		sendPs := func(ps []byte, ts uint32) bool {
 			for off := 0; off < len(ps); {
 				n := 1400
@@ -906,18 +946,13 @@ func c07Run(c *fw.Ctx, i int) {
 				pkt := ref.BuildRtp(ref.RtpPkt{Marker: off+n == len(ps), PT: 96, Seq: seq, Ts: ts, Ssrc: 0x3333, Payload: ps[off : off+n]})
 				seq++
 				off += n
-				var e error
-				if tcp {
-					_, e = conn.Write(append([]byte{byte(len(pkt) >> 8), byte(len(pkt))}, pkt...))
-				} else {
-					_, e = conn.Write(pkt)
-				}
-				if e != nil {
+				if emit(pkt) != nil {
 					return false
 				}
 			}
 			return true
 		}
+
 		before := udpErrors()
 		vi, ai := 0, 0
 		psmSent := false
@@ -1010,6 +1045,10 @@ func c07Run(c *fw.Ctx, i int) {
 			if n%100 == 99 {
 				time.Sleep(4 * time.Millisecond)
 			}
+		}
+		if held != nil {
+			raw(held)
+			held = nil
 		}
 		cs.quiesce()
 		if !tcp && udpErrors() != before {
